@@ -11,6 +11,12 @@ Streams
            and the model replays exactly that call sequence; the wrapper-level results go to the oracle.
   choice   wsgi.get_input_stream / get_content_length on generated environs vs Model.getInputStream,
            oracle: the wrapper-choice clauses of the property.
+  request-body  access histories on one werkzeug.wrappers.Request object over an instrumented wsgi.input:
+           request.stream.<read op>, get_data(cache, as_text, parse_form_data), form / files / values,
+           close(), in any order - vs Model.InputStreamReq.runROps (the form parser is an arbitrary reader:
+           the calls it makes on the stream are recorded and replayed). Oracle: never more than the declared
+           length / maximum is taken from wsgi.input, nothing at all without a usable length or above the
+           maximum, what the application receives is the prefix of what the client sent, cached data is stable.
 """
 from __future__ import annotations
 
@@ -127,6 +133,10 @@ def make_spy(LimitedStream):
 
 
 def fmt_res(r):
+    if isinstance(r, tuple) and r[0] == "val":
+        return f"val:{r[1]}"
+    if isinstance(r, tuple) and r[0] == "iter":
+        return "iter:" + ",".join(hx(x) for x in r[1]) + "!" + r[2]
     if isinstance(r, bytes):
         return "ok:" + hx(r)
     if isinstance(r, list):
@@ -173,6 +183,24 @@ def apply_raw(s, tok):
         return next(s)
     if k == "x":
         return s.exhaust()
+    if k == "t":  # (value, what the property says it is: bytes taken from the underlying stream)
+        return ("val", s.tell(), s._stream.off)
+    if k == "e":
+        return ("val", int(bool(s.is_exhausted)), int(s._stream.off >= s.limit))
+    if k == "R":
+        return ("val", int(bool(s.readable())), 1)
+    if k == "I":  # for line in stream: the lines seen by the loop body, then how the loop ended
+        lines = []
+        try:
+            for ln in s:
+                lines.append(ln)
+                if len(lines) > CALL_CAP:
+                    raise EndlessRead()
+        except EndlessRead:
+            raise
+        except Exception as e:  # noqa: BLE001
+            return ("iter", lines, type(e).__name__)
+        return ("iter", lines, "StopIteration")
     raise AssertionError(tok)
 
 
@@ -202,6 +230,7 @@ def common_oracle(case, data, u, spy, outs, kind):
         if c0 + n > limit:
             return f"over-read: requested {n} bytes from the underlying stream at offset {c0}, limit {limit}"
     # per call of the wrapped object
+    known_shape = None  # F09b is reported only when nothing else is wrong with the case (see finding_key)
     for ent in spy.trace:
         res = ent.get("res")
         if res == "RESIZED":
@@ -218,11 +247,43 @@ def common_oracle(case, data, u, spy, outs, kind):
             return "read() returned before the declared length without an error (silent truncation)"
         if isinstance(res, str) and res.startswith("EXC:") and res not in ALLOWED_EXC:
             return f"unrelated exception {res[4:]} from LimitedStream"
-        if ent["op"] == "a" and isinstance(res, bytes) and is_max and ent["c0"] < limit and ent["c0"] + len(res) == limit and len(data) > limit:
-            return TRUNCATED_MAX
+        if res == "EXC:RequestEntityTooLarge" and (not is_max or ent["c0"] < limit):
+            # raised at the start of readinto / readall only: nothing was taken during this call
+            return f"RequestEntityTooLarge although only {ent['c0']} bytes of a {'maximum' if is_max else 'declared length'} of {limit} had been read"
+        if (ent["op"] == "a" and isinstance(res, bytes) and is_max and ent["c0"] < limit and ent["c0"] + len(res) == limit and len(data) > limit
+                and res == data[ent["c0"] : limit]):
+            # exactly the shape of F09b: an unbounded read() under a maximum, begun before the maximum, returned
+            # precisely the bytes up to the maximum of a longer body, without RequestEntityTooLarge
+            known_shape = TRUNCATED_MAX
     # what the application sees
     got = b""
     for tok, o in zip(case["ops"], outs):
+        if isinstance(o, tuple) and o[0] == "peek":
+            if data[len(got) : len(got) + len(o[1])] != o[1]:
+                return "peek() showed bytes that are not the next bytes the client sent"
+            if len(got) + len(o[1]) > limit:
+                return f"peek() reached {len(got) + len(o[1])} bytes, limit {limit}"
+            continue
+        if isinstance(o, tuple) and o[0] == "val":
+            if o[1] != o[2]:
+                return {"t": "tell() differs from the number of bytes taken from the underlying stream",
+                        "e": "is_exhausted differs from 'the limit has been reached'", "R": "readable() is not True"}[tok[0]]
+            continue
+        if isinstance(o, tuple) and o[0] == "iter":
+            for ln in o[1]:
+                if not ln or b"\n" in ln[:-1]:
+                    return "iteration yielded an empty line or a line with an inner newline"
+            chunk = b"".join(o[1])
+            got += chunk
+            if len(got) > limit:
+                return f"yielded {len(got)} bytes, limit {limit}"
+            if data[: len(got)] != got:
+                return "yielded bytes are not a prefix of what the client sent"
+            if o[2] == "StopIteration":
+                continue
+            if "EXC:" + o[2] not in ALLOWED_EXC:
+                return f"unrelated exception {o[2]} ended the iteration"
+            break
         if isinstance(o, str):
             if o == "RESIZED":
                 return "readinto changed the size of the caller's buffer"
@@ -237,7 +298,7 @@ def common_oracle(case, data, u, spy, outs, kind):
             return f"yielded {len(got)} bytes, limit {limit}"
         if data[: len(got)] != got:
             return "yielded bytes are not a prefix of what the client sent"
-    return None
+    return known_shape
 
 
 class ReadsStream(Stream):
@@ -260,6 +321,11 @@ class ReadsStream(Stream):
         {"data": hx(b""), "script": [], "exc": "OSError", "limit": 0, "max": False, "ri": True, "ops": ["a", "r1", "l", "L", "n", "x", "i3"]},
         {"data": hx(b""), "script": [], "exc": "OSError", "limit": 0, "max": True, "ri": True, "ops": ["a", "r1", "l", "L", "n", "x", "i3"]},
         {"data": hx(b"x" * 70000), "script": ["g65536", "g10"], "exc": "OSError", "limit": 69999, "max": False, "ri": True, "ops": ["a", "a"]},
+        # observers and `for line in stream`
+        {"data": hx(b"ab\ncd\n\nef"), "script": ["g2"], "exc": "OSError", "limit": 9, "max": False, "ri": True, "ops": ["t", "e", "R", "r1", "t", "I", "t", "e", "I"]},
+        {"data": hx(b"ab\ncd\n\nef"), "script": [], "exc": "OSError", "limit": 12, "max": False, "ri": False, "ops": ["I", "t", "e"]},
+        {"data": hx(b"ab\ncd\n\nefgh"), "script": [], "exc": "OSError", "limit": 9, "max": True, "ri": True, "ops": ["I", "t", "e", "I"]},
+        {"data": hx(b"ab\ncd"), "script": ["g1", "r"], "exc": "OSError", "limit": 5, "max": True, "ri": True, "ops": ["I", "I", "t"]},
     ]
 
     def cases(self, rng, tier):
@@ -303,14 +369,15 @@ class ReadsStream(Stream):
         except EndlessRead:
             return "endless read: the underlying stream was called more than %d times" % CALL_CAP
         what = common_oracle(case, data, u, s, outs, "raw")
-        if what:
+        if what and what != TRUNCATED_MAX:
             return what
         # used raw nothing is buffered: everything taken from the underlying stream was handed out
-        if not any(isinstance(o, str) and o != "EXC:StopIteration" for o in outs):
-            got = b"".join(b"".join(o) if isinstance(o, list) else o for o in outs if not isinstance(o, str))
+        if not any((isinstance(o, str) and o != "EXC:StopIteration") or (isinstance(o, tuple) and o[0] == "iter" and o[2] != "StopIteration") for o in outs):
+            flat = [(o[1] if o[0] == "iter" else []) if isinstance(o, tuple) else o for o in outs if not isinstance(o, str)]
+            got = b"".join(b"".join(o) if isinstance(o, list) else o for o in flat)
             if got != data[: u.off]:
                 return "bytes were taken from the underlying stream but not handed to the caller"
-        return None
+        return what
 
     def finding_key(self, case, what):
         return "F09b" if what == TRUNCATED_MAX else None
@@ -394,8 +461,12 @@ def gen_ops(rng, wrapped, text=False):
             ops.append("L" if rng.random() < 0.6 else f"L{size}")
         elif q < 0.85:
             ops.append("n" if text else f"i{size}")
-        elif q < 0.95:
+        elif q < 0.93:
             ops.append("n")
+        elif q < 0.96 and not wrapped:
+            ops.append(rng.choice(["t", "e", "I", "I", "R"]))
+        elif wrapped and not text and q < 0.97:
+            ops.append(rng.choice([f"o{size}", f"p{size}"]))  # BufferedReader.read1 / peek
         else:
             ops.append("a" if wrapped else "x")
     return ops
@@ -438,6 +509,10 @@ def apply_buffered(b, tok):
         return bytes(buf[:cnt])
     if k == "n":
         return next(b)
+    if k == "o":
+        return b.read1(n)
+    if k == "p":  # peek does not consume: checked against the client's data, not part of what is yielded
+        return ("peek", b.peek(n))
     raise AssertionError(tok)
 
 
@@ -514,7 +589,22 @@ class WrappedStream(Stream):
             data, u, s, outs = self._run(case)
         except EndlessRead:
             return "endless read: the underlying stream was called more than %d times" % CALL_CAP
-        return common_oracle(case, data, u, s, outs, case["wrap"])
+        what = common_oracle(case, data, u, s, outs, case["wrap"])
+        if what and what != TRUNCATED_MAX:
+            return what
+        # the recorded assumption of theorem wrapper_yields_prefix, checked on this case: what the buffering
+        # layer handed out (up to its first exception) is a prefix of what LimitedStream's reads returned to it
+        raw_got = b"".join(e["res"] for e in s.trace if isinstance(e.get("res"), bytes))
+        handed = b""
+        for o in outs:
+            if isinstance(o, str):
+                break
+            if isinstance(o, tuple):
+                continue
+            handed += b"".join(o) if isinstance(o, list) else o
+        if raw_got[: len(handed)] != handed:
+            return "the buffering wrapper handed out bytes that LimitedStream did not return to it (assumption of wrapper_yields_prefix)"
+        return what
 
     def finding_key(self, case, what):
         return "F09b" if what == TRUNCATED_MAX else None
@@ -537,7 +627,9 @@ class WrappedStream(Stream):
             yield c
 
 
-CL_VALUES = [None, "0", "5", "7", " 5 ", "\t5\n", "-3", "-0", "abc", "", "+5", "1_0", "5.0", "0x5", "５", "٥", "5 5", "--5", "-", "005", "99999999999999999999", "\x1f5", " 5", "5\x00"]
+CL_VALUES = [None, "0", "5", "7", " 5 ", "\t5\n", "-3", "-0", "abc", "", "+5", "1_0", "5.0", "0x5", "５", "٥", "5 5", "--5", "-", "005", "99999999999999999999", "\x1f5", " 5", "5\x00",
+             # texts that merely *contain* a usable integer (list members, parameters, prefixes, suffixes)
+             "5,5", "5, 5", "5,", ",5", "5,x", "5 , 7000", "5;q=1", "5x", "x5", "5\n5", "5e0", "5-", "(5)", "5,-1"]
 
 
 class ChoiceStream(Stream):
@@ -650,15 +742,409 @@ class ChoiceStream(Stream):
         return real_out.split(":")[0] if not real_out.startswith("EXC") else "413"
 
 
+
+# --------------------------------------------------------------------------
+# Request glue: access histories on one Request object
+
+
+class LogBytesIO(io.BytesIO):
+    """a server-terminated wsgi.input (what a de-chunking server stream looks like to werkzeug)"""
+
+    calls = ()
+    log = None  # shared call list of the case (so that a form parser reading this object directly is recorded)
+
+    @property
+    def off(self):
+        return self.tell()
+
+    def read(self, n=-1):
+        if self.log is not None:
+            self.log.append("a" if n is None or n < 0 else f"r{n}")
+        return io.BytesIO.read(self, n)
+
+
+CT = {
+    "none": None,
+    "urlenc": "application/x-www-form-urlencoded",
+    "multi": "multipart/form-data; boundary=b",
+    "multi-nob": "multipart/form-data",
+    "text": "text/plain",
+    "json": "application/json",
+}
+REQ_BODIES = [
+    b"a=1&b=2", b"a=1", b"", b"x" * 40, b"k=v&" * 12, b'{"a": 1}', b"caf\xc3\xa9 \xff\xfe",
+    b'--b\r\nContent-Disposition: form-data; name="a"\r\n\r\n1\r\n--b--\r\n',
+    b'--b\r\nContent-Disposition: form-data; name="f"; filename="x.txt"\r\n\r\nfile data\r\n--b\r\nContent-Disposition: form-data; name="a"\r\n\r\n1\r\n--b--\r\n',
+    b"line1\nline2\n\nline4",
+]
+REQ_STREAM_OPS = ["r1", "r3", "r5", "r100", "a", "l", "l2", "n", "L", "i4", "i100"]
+
+
+def req_limit(case):
+    """what the property allows to be taken from wsgi.input: (limit or None = unbounded, kind)"""
+    cl, data = case["cl"], unhx(case["data"])
+    import re
+
+    n = None
+    if cl is not None and not case["chunked"]:
+        n = int(cl.strip(" \t")) if re.fullmatch(r"[ \t]*[0-9]+[ \t]*", cl) else 0
+    mx = case["max"]
+    if n is not None and mx is not None and n > mx:
+        return 0, "413"
+    if case["term"]:
+        return (mx, "max") if mx is not None else (len(data), "raw")
+    if n is None:
+        return 0, "empty"
+    return n, "declared"
+
+
+class RequestBodyStream(Stream):
+    name = "request-body"
+
+    @staticmethod
+    def mk(cl, data, hist, ct="none", chunked=False, term=False, mx=None, ri=True, script=(), exc="OSError"):
+        return {"cl": cl, "chunked": chunked, "term": term, "max": mx, "ri": ri, "ct": ct, "data": hx(data), "script": list(script), "exc": exc, "hist": list(hist)}
+
+    corpus = []
+
+    def __init__(self):
+        mk = self.mk
+        self.corpus = [
+            # stream then data, data twice, data then stream
+            mk("7", b"a=1&b=2", ["Sr3", "D10", "D10", "Sr3"]),
+            mk("7", b"a=1&b=2", ["D10", "D10", "D00", "Sr3", "C", "D11"]),
+            mk("7", b"a=1&b=2", ["D00", "D00", "D10", "D10"]),
+            # form then stream / data; data then form (the parser reads the cached copy)
+            mk("7", b"a=1&b=2", ["F", "Sr3", "D10", "F"], ct="urlenc"),
+            mk("7", b"a=1&b=2", ["D10", "F", "D01", "Sr3", "Sl"], ct="urlenc"),
+            mk("7", b"a=1&b=2", ["D11", "F", "D10"], ct="urlenc"),
+            mk("7", b"a=1&b=2", ["D01", "D01", "F", "D10"], ct="urlenc"),
+            mk("3", b"a=1&b=2", ["F", "D10", "Sr5"], ct="urlenc"),
+            mk("48", REQ_BODIES[7], ["F", "D10", "C"], ct="multi"),
+            mk("48", REQ_BODIES[7], ["Sr10", "F", "D10"], ct="multi"),
+            mk("48", REQ_BODIES[7], ["D10", "F", "F", "T"], ct="multi", script=["g5"] * 30),
+            mk("7", b"a=1&b=2", ["F", "D10"], ct="multi-nob"),
+            mk("7", b"a=1&b=2", ["F", "D10"], ct="text"),
+            mk("7", b"a=1&b=2", ["F", "D10"], ct="none"),
+            # short body: ClientDisconnected on every path, again on a second attempt
+            mk("9", b"a=1", ["F", "F", "D10", "Sa"], ct="urlenc"),
+            mk("9", b"a=1", ["D10", "D10", "Sr2"]),
+            mk("9", b"a=1&b=2&c=3", ["Sr2", "D10", "D10"], script=["g2", "r"]),
+            # declared length above the maximum: 413 on every access, nothing consumed
+            mk("9", b"a=1&b=2&c", ["Sr2", "D10", "F", "D11", "C", "Sr2"], ct="urlenc", mx=4),
+            mk("4", b"a=1&b=2&c", ["Sr2", "D10", "F", "D10"], ct="urlenc", mx=4),
+            # no usable length on a non-terminating server: empty
+            mk(None, b"a=1&b=2", ["Sr5", "D10", "F", "Sa", "Sn"], ct="urlenc"),
+            mk("7", b"a=1&b=2", ["Sr5", "D10", "F"], ct="urlenc", chunked=True),
+            mk("abc", b"a=1&b=2", ["Sr5", "D10", "F"], ct="urlenc"),
+            mk("-3", b"a=1&b=2", ["D10", "Sr5"]),
+            # server-terminated input, with and without a maximum (F09b: read() lands exactly on the maximum)
+            mk(None, b"a=1&b=2", ["Sr3", "D10", "D10", "F"], ct="urlenc", term=True),
+            mk(None, b"a=1&b=2", ["D00", "D00"], term=True, mx=10),
+            mk(None, b"a=1&b=2", ["D00", "D00"], term=True, mx=7),
+            mk(None, b"a=1&b=2", ["D10", "D10", "Sr1"], term=True, mx=5),
+            mk(None, b"a=1&b=2", ["Sr5", "Sr5", "D10"], term=True, mx=5),
+            mk("7", b"a=1&b=2", ["D10"], chunked=True, term=True, mx=5),
+            mk(None, b"caf\xc3\xa9 \xff\xfe", ["T", "T", "D10"], term=True),
+        ]
+
+    def cases(self, rng, tier):
+        while True:
+            data = rng.choice(REQ_BODIES)
+            n = len(data)
+            r = rng.random()
+            cl = str(max(0, rng.choice([n, n, n, n - 1, n + 2, n // 2, 0]))) if r < 0.78 else rng.choice([None, None, "abc", "-3", " %d " % n, "+5", "1_0", "%d,%d" % (n, n), "%d, 3" % n, "%d;x" % n, "x%d" % n])
+            term = rng.random() < 0.25
+            mx = rng.choice([None, None, None, n, max(0, n - 1), n + 1, n // 2, 0, 100])
+            chunked = rng.random() < (0.5 if term else 0.08)
+            ct = rng.choice(["none", "urlenc", "urlenc", "multi", "multi", "multi-nob", "text", "json"])
+            hist = []
+            for _ in range(rng.choice([1, 2, 3, 4, 6])):
+                q = rng.random()
+                if q < 0.35:
+                    hist.append("S" + rng.choice(REQ_STREAM_OPS))
+                elif q < 0.7:
+                    hist.append(rng.choice(["D10", "D10", "D00", "D11", "D01", "T"]))
+                elif q < 0.92:
+                    hist.append("F")
+                else:
+                    hist.append("C")
+            rawchoice = term and mx is None
+            yield self.mk(cl, data, hist, ct=ct, chunked=chunked, term=term, mx=mx, ri=True if rawchoice else rng.random() < 0.6,
+                          script=[] if rawchoice else gen_script(rng, n), exc=rng.choice(["OSError", "ValueError"]))
+
+    # -- running the real code ------------------------------------------------
+
+    def _run(self, case):
+        from unittest import mock
+
+        from werkzeug import wsgi
+        from werkzeug.wrappers import Request
+        from werkzeug.wrappers import request as reqmod
+
+        data = unhx(case["data"])
+        rawchoice = case["term"] and case["max"] is None
+        if rawchoice:
+            inp = LogBytesIO(data)
+        else:
+            inp = (UnderReadinto if case["ri"] else UnderRead)(data, case["script"], case["exc"])
+        env = {"wsgi.input": inp, "REQUEST_METHOD": "POST", "SERVER_NAME": "localhost", "SERVER_PORT": "80", "wsgi.url_scheme": "http", "PATH_INFO": "/"}
+        if case["cl"] is not None:
+            env["CONTENT_LENGTH"] = case["cl"]
+        if case["chunked"]:
+            env["HTTP_TRANSFER_ENCODING"] = "chunked"
+        if case["term"]:
+            env["wsgi.input_terminated"] = True
+        if CT[case["ct"]] is not None:
+            env["CONTENT_TYPE"] = CT[case["ct"]]
+        calls = []  # every read call any stream object of the request receives, in order
+        if rawchoice:
+            inp.log = calls
+
+        Lim = wsgi.LimitedStream
+
+        class SpyLim(Lim):
+            _d = 0
+
+            def readinto(self, b):
+                if self._d:
+                    return Lim.readinto(self, b)
+                calls.append(f"i{len(b)}")
+                self._d += 1
+                try:
+                    n = len(b)
+                    k = Lim.readinto(self, b)
+                    if len(b) != n:
+                        calls.append("RESIZED")
+                    return k
+                finally:
+                    self._d -= 1
+
+            def readall(self):
+                if self._d:
+                    return Lim.readall(self)
+                calls.append("a")
+                self._d += 1
+                try:
+                    return Lim.readall(self)
+                finally:
+                    self._d -= 1
+
+        class SpyMem(io.BytesIO):
+            def read(self, n=-1):
+                calls.append("a" if n is None or n < 0 else f"r{n}")
+                return io.BytesIO.read(self, n)
+
+        steps = []  # (token, result, off_before, off_after, parser calls, kind of request.stream before the step)
+        with mock.patch.object(wsgi, "LimitedStream", SpyLim), mock.patch.object(reqmod, "BytesIO", SpyMem):
+            req = Request(env)
+            if case["max"] is not None:
+                req.max_content_length = case["max"]
+            load = req._load_form_data
+            mark = {}
+
+            def marked_load():
+                if "form" not in req.__dict__:
+                    mark["k0"] = len(calls)
+                    try:
+                        load()
+                    finally:
+                        mark["k1"] = len(calls)
+                else:
+                    load()
+
+            req._load_form_data = marked_load
+            for tok in case["hist"]:
+                mark.clear()
+                off0 = inp.off
+                st0 = req.__dict__.get("stream")
+                kind = "none" if st0 is None else ("live" if (st0 is inp or getattr(st0, "_stream", None) is inp) else "mem")
+                try:
+                    if tok[0] == "S":
+                        res = apply_raw(req.stream, tok[1:])
+                    elif tok[0] == "D":
+                        res = req.get_data(cache=tok[1] == "1", parse_form_data=tok[2] == "1")
+                    elif tok == "T":
+                        res = ("txt", req.get_data(as_text=True))
+                    elif tok == "F":
+                        req.form  # noqa: B018
+                        req.files  # noqa: B018
+                        res = []
+                    elif tok == "C":
+                        req.close()
+                        res = []
+                    else:
+                        raise AssertionError(tok)
+                except EndlessRead:
+                    raise
+                except (Exception, StopIteration) as e:  # noqa: BLE001
+                    res = "EXC:" + type(e).__name__
+                pops = calls[mark["k0"] : mark["k1"]] if "k0" in mark else []
+                steps.append((tok, res, off0, inp.off, pops, kind))
+        return data, inp, steps, calls
+
+    @staticmethod
+    def _fmt(res):
+        if isinstance(res, tuple) and res[0] == "txt":
+            return "txt:" + hs(res[1])
+        if res == []:
+            return "ok:"
+        return fmt_res(res)
+
+    def real(self, case):
+        data, inp, steps, calls = self._run(case)
+        if "RESIZED" in calls:
+            return "RESIZED"
+        rawchoice = case["term"] and case["max"] is None
+        return ";".join(self._fmt(r) for _, r, *_ in steps) + f"|{inp.off}|" + ("" if rawchoice else fmt_log(inp.calls))
+
+    def model_line(self, case):
+        try:
+            data, inp, steps, calls = self._run(case)
+        except EndlessRead:
+            return None
+        toks = []
+        for tok, res, off0, off1, pops, kind in steps:
+            if tok[0] == "S":
+                toks.append(tok)
+            elif tok[0] == "D":
+                toks.append(f"{tok}:" + "+".join(pops))
+            elif tok == "T":
+                toks.append("D10:")
+            elif tok == "F":
+                toks.append("F:" + "+".join(pops))
+            else:
+                toks.append("C")
+        return line("req.run", opt(hs, case["cl"]), b01(case["chunked"]), b01(case["term"]), opt(str, case["max"]), b01(case["ri"]),
+                    b01(CT[case["ct"]] is not None), case["data"], ",".join(case["script"]) or "[]", ";".join(toks) or "[]")
+
+    def canon_model(self, case, out):
+        parts = out.split("|")
+        if len(parts) != 3:
+            return out
+        res = parts[0].split(";") if case["hist"] else []
+        for i, tok in enumerate(case["hist"]):
+            if i < len(res) and tok == "T" and res[i].startswith("ok:"):
+                res[i] = "txt:" + hs(unhx(res[i][3:] or "-").decode(errors="replace"))
+        if case["term"] and case["max"] is None:
+            parts[2] = ""
+        return ";".join(res) + "|" + parts[1] + "|" + parts[2]
+
+    # -- the property, on the observations --------------------------------------
+
+    def oracle(self, case, real_out):
+        try:
+            data, inp, steps, calls = self._run(case)
+        except EndlessRead:
+            return "endless read: wsgi.input was called more than %d times" % CALL_CAP
+        if "RESIZED" in calls:
+            return "readinto changed the size of the caller's buffer"
+        limit, kind = req_limit(case)
+        if inp.off > limit:
+            return f"{inp.off} bytes were taken from wsgi.input, the property allows {limit} ({kind})"
+        for c0, n, _ in inp.calls:
+            if c0 + n > limit:
+                return f"over-read: {n} bytes requested from wsgi.input at offset {c0}, allowed {limit} ({kind})"
+        cached = None
+        known_shape = None
+        contiguous = True  # no parser / exception has taken bytes the application did not see
+        for tok, res, off0, off1, pops, skind in steps:
+            body_access = tok[0] in "SDTF"
+            if isinstance(res, str) and res.startswith("EXC:"):
+                if res == "EXC:StopIteration" and tok == "Sn":
+                    continue
+                if res not in ALLOWED_EXC:
+                    return f"unrelated exception {res[4:]} from {tok}"
+                if res == "EXC:RequestEntityTooLarge" and (kind not in ("413", "max") or (kind == "max" and off1 < limit)):
+                    return f"RequestEntityTooLarge from {tok} although no maximum is exceeded ({off1} bytes read)"
+                if res == "EXC:ClientDisconnected" and kind in ("413", "empty", "raw"):
+                    return f"ClientDisconnected from {tok} although nothing / no declared length was to be read"
+                contiguous = False
+                continue
+            if kind == "413" and body_access and cached is None:
+                return f"declared length above max_content_length but {tok} did not raise RequestEntityTooLarge"
+            if tok == "F":
+                if pops:
+                    contiguous = False
+                continue
+            if tok == "C":
+                if off1 != off0:
+                    return "close() consumed input"
+                continue
+            if tok[0] in "DT":
+                text = tok == "T"
+                got = res[1] if text else res
+                if cached is not None:
+                    if got != (cached.decode(errors="replace") if text else cached) or off1 != off0:
+                        return "get_data() after cached data returned something else / consumed input"
+                    continue
+                seg = data[off0:off1]  # what this call took from wsgi.input
+                if skind == "mem":
+                    # the stream is an in-memory object (the empty fallback): nothing may be taken from the input
+                    if off1 != off0:
+                        return "reading an in-memory stream consumed wsgi.input"
+                else:
+                    # a form parser that ran inside this call took the front of `seg`; the result is its tail
+                    if (not seg.endswith(got)) if (pops and not text) else (got != (seg.decode(errors="replace") if text else seg)):
+                        return "get_data() is not the bytes this call took from wsgi.input"
+                    if kind == "declared" and off1 < limit:
+                        return "get_data() returned before the declared length without an error (silent truncation)"
+                    if kind == "max" and off0 < limit and off1 == limit and len(data) > limit and (pops or got == seg or text):
+                        known_shape = TRUNCATED_MAX  # the request-level face of F09b
+                if kind == "empty" and got:
+                    return "no usable length on a non-terminating server but get_data() returned data"
+                if text or tok[1] == "1":
+                    cached = got.encode() if text and skind == "mem" else (seg if text else got)
+                continue
+            # request.stream.<op>
+            if isinstance(res, tuple):
+                continue
+            chunk = b"".join(res) if isinstance(res, list) else res
+            if kind == "empty" and chunk:
+                return "no usable length on a non-terminating server but the stream yielded data"
+            if skind != "mem":
+                if chunk and data[off1 - len(chunk) : off1] != chunk:
+                    return "the stream yielded bytes that are not what was taken from wsgi.input"
+                if len(chunk) != off1 - off0:
+                    return "bytes were taken from wsgi.input but not handed to the caller"
+            elif off1 != off0:
+                return "reading the in-memory copy consumed wsgi.input"
+        return known_shape
+
+    def finding_key(self, case, what):
+        return "F09b" if what == TRUNCATED_MAX else None
+
+    def nontrivial(self, case, real_out):
+        return len(case["hist"]) > 1
+
+    def bucket(self, case, real_out):
+        kind = req_limit(case)[1]
+        exc = "cd" if "ClientDisconnected" in real_out else ("413" if "RequestEntityTooLarge" in real_out else "ok")
+        shape = ("F" if "F" in case["hist"] else "") + ("D" if any(t[0] in "DT" for t in case["hist"]) else "") + ("S" if any(t[0] == "S" for t in case["hist"]) else "")
+        return f"{kind}/{case['ct']}/{shape}/{exc}"
+
+    def mutate(self, case, rng):
+        for i in range(len(case["hist"])):
+            c = dict(case)
+            c["hist"] = case["hist"][:i] + case["hist"][i + 1 :]
+            yield c
+        for k, v in (("ct", "none"), ("script", []), ("max", None)):
+            if case[k] != v:
+                c = dict(case)
+                c[k] = v
+                yield c
+
+
 CHECK = Check(
     prop="C09",
-    gen=["InputStream", "PyFns_Internal", "PyFns_Length"],
+    gen=["InputStream", "InputStreamFacts", "PyFns_Internal", "PyFns_Length"],
     modules=["WzVerif.Props.C09", "WzVerif.Props.C09T"],
-    streams=[ReadsStream(), WrappedStream(), ChoiceStream(), PreludeKernels()],
+    streams=[ReadsStream(), WrappedStream(), ChoiceStream(), RequestBodyStream(), PreludeKernels()],
     assumptions=[
         "the underlying wsgi.input is a well-behaved binary stream: read(n)/readinto(b) return at most the requested number of bytes, or raise OSError/ValueError; other exception classes raised by the server's stream propagate unchanged and are outside the model",
         "CPython's RawIOBase.read / IOBase.readline / readlines / __next__ are modelled by thin definitions on top of readinto (validated by stream reads, not verified)",
-        "io.BufferedReader and io.TextIOWrapper are not modelled: they are treated as arbitrary callers of LimitedStream.readinto/readall (the theorems hold for every call sequence); stream wrapped replays the call sequence they actually issue and the property oracle checks what they return",
+        "io.BufferedReader and io.TextIOWrapper are not modelled: they are treated as arbitrary callers of LimitedStream.readinto/readall (the theorems hold for every call sequence); stream wrapped replays the call sequence they actually issue (read, read1, peek, readline, readlines, readinto, iteration) and the property oracle checks what they return. Recorded assumption of theorem wrapper_yields_prefix, checked on every case of stream wrapped: a buffering wrapper hands its caller only bytes that LimitedStream's reads returned to it, in order",
+        "Request glue (Model/InputStreamReq.lean): Request.stream / _get_stream_for_parsing / _load_form_data / get_data / close are modelled as a state machine over access histories; the form parser is an arbitrary reader (its read calls are recorded by the harness and replayed - what it makes of the bytes is C01/C02/C10's subject); io.BytesIO (empty fallback, copy of the cached data) and a server-terminated wsgi.input used without a maximum are represented as a LimitedStream with a declared length over exactly their content (same answers for read / readline / readlines() / readinto / next; validated by stream request-body, where the terminated input is a BytesIO); as_text is bytes.decode(errors='replace') applied by the harness on both sides; shallow requests, files' close() and get_json's own cache are outside the model",
         "zero-size reads are outside the property's quantifier (read(0) on an unexhausted declared-length stream raises ClientDisconnected; modelled as coded, excluded from the short-body oracle)",
         "limit and max_content_length are natural numbers (get_content_length never returns a negative value)",
         "known finding F09b: under a maximum (is_max=True) an unbounded read() of a body longer than the maximum returns the first max bytes without RequestEntityTooLarge; only a further read raises. The full-strength negation and the partial form (every read *past* the maximum raises; read() lands exactly on the limit) are proved",
@@ -670,7 +1156,7 @@ CHECK = Check(
 )
 
 MANIFEST = {
-    "level_text": "Machine-checked Lean 4 theorems about an executable model of LimitedStream (readinto's three paths, readall, exhaust, the exhaustion/disconnect hooks) over an underlying stream with arbitrary scripted behaviour: invariants pos <= limit, consumed = pos, output = prefix of the data and no single over-reading request, by induction over arbitrary operation sequences; ClientDisconnected / RequestEntityTooLarge / readall exactness theorems; get_input_stream's wrapper choice decided over a table regenerated from the live function on every run. The model is tied to the code by differential streams (raw, BufferedReader, TextIOWrapper) with a property oracle on the real code.",
+    "level_text": "Machine-checked Lean 4 theorems about an executable model of LimitedStream (readinto's three paths, readall, exhaust, tell / is_exhausted, iteration, the exhaustion/disconnect hooks) over an underlying stream with arbitrary scripted behaviour, and of the Request glue around it (Request.stream, get_data with caching, form parsing, close) over arbitrary access histories: invariants pos <= limit, consumed = pos, output = prefix of the data and no single over-reading request, by induction over arbitrary operation sequences; ClientDisconnected / RequestEntityTooLarge / readall exactness theorems; get_input_stream's wrapper choice decided over a table regenerated from the live function on every run. The model is tied to the code by differential streams (raw, BufferedReader, TextIOWrapper) with a property oracle on the real code.",
     "level_note": "Trusted: Lean kernel; extract.py; the correspondence harness; CPython io glue (RawIOBase.read/readline/readlines modelled, BufferedReader/TextIOWrapper treated as arbitrary callers). Underlying stream assumed to return at most what is asked.",
     "technique": "Lean 4 proof (induction over op sequences and oracle scripts; decide +kernel over a regenerated decision table) + model/code correspondence",
     "design_ref": "DESIGN.md section 4, C09",
